@@ -888,6 +888,11 @@ impl Component for SysComp {
          datagrams, an uplink removed with packets in flight, reloads in the middle of the REG1 / REG2 handshake, \
          uplinks added and brought up, removed addresses re-added, same / permuted / duplicated lists, all but one \
          removed, refused creations retried later, datagrams addressed to removed conn ids. \
+         Every case with index 1 mod 3 runs the WHOLE housekeeping arm at its ticks (op hkarm: hk, then the real \
+         WeakLinkFilter::classify, LinkCcController::tick_all and the stamping loop, mirrored statement by statement); \
+         every case with index 5 mod 16 is the lopsided-share scenario (hkarm at every tick, one uplink starved by a \
+         tiny window, late / missing keepalive echoes, phases under the 100 kbit/s floor, a NAK-heavy loss phase, an \
+         optional reload) in which weak / probation / back-off / loss-degraded verdicts are reached and stamped. \
          Thorough tier: cases up to 450 steps. Non-trivial: registration completed and at least one datagram was put \
          on the wire."
     }
